@@ -29,6 +29,45 @@ theorem hlo_sound (hc : CleanEnv env) (cs : Nat → List (Option Nat)) (dt : DTy
   | logicalNot x => simp [suppHlo] at hs
   | reduce op x axes => exact reduce_sound hc cs dt shape binds lits op x axes hp hs hrank hb hd
 
+omit g inp env in
+theorem hloPlan_stmt {cs : Nat → List (Option Nat)} {dt : DType} {shape : Shape}
+    {binds : List (String × Nat)} {lits : List ScalarInfo} {h : Raise.HLO} {pl : Plan}
+    (hp : hloPlan cs dt shape binds lits h = .ok pl) : ∃ pre kids mk, pl = .stmt pre kids mk := by
+  cases h with
+  | full c =>
+    simp only [hloPlan] at hp
+    obtain ⟨_, _, hp⟩ := Gen.bind_ok.1 hp
+    cases hp; exact ⟨_, _, _, rfl⟩
+  | binary op x1 x2 =>
+    simp only [hloPlan] at hp
+    split at hp
+    · obtain ⟨_, _, hp⟩ := Gen.bind_ok.1 hp
+      cases hp; exact ⟨_, _, _, rfl⟩
+    · split at hp
+      · obtain ⟨_, _, hp⟩ := Gen.bind_ok.1 hp
+        cases hp; exact ⟨_, _, _, rfl⟩
+      · cases hp
+  | call f args =>
+    simp only [hloPlan] at hp
+    obtain ⟨_, _, hp⟩ := Gen.bind_ok.1 hp
+    cases hp; exact ⟨_, _, _, rfl⟩
+  | zerosLike x =>
+    simp only [hloPlan] at hp
+    cases hp; exact ⟨_, _, _, rfl⟩
+  | where_ c t e =>
+    simp only [hloPlan] at hp
+    obtain ⟨_, _, hp⟩ := Gen.bind_ok.1 hp
+    cases hp; exact ⟨_, _, _, rfl⟩
+  | broadcast x =>
+    simp only [hloPlan] at hp
+    obtain ⟨_, _, hp⟩ := Gen.bind_ok.1 hp
+    cases hp; exact ⟨_, _, _, rfl⟩
+  | logicalNot x => simp [hloPlan] at hp
+  | reduce op x axes =>
+    simp only [hloPlan] at hp
+    obtain ⟨_, _, hp⟩ := Gen.bind_ok.1 hp
+    cases hp; exact ⟨_, _, _, rfl⟩
+
 /-! ## the dictionary of outputs: values stay with their keys -/
 
 theorem dict_eval : ∀ (items : List (String × Nat)) {names : List String} {as : List (Arr Val)},
@@ -46,6 +85,146 @@ theorem dict_eval : ∀ (items : List (String × Nat)) {names : List String} {as
   | _ :: _, [], as, hb, hd => by
     cases as <;> simp [BoundTo, KidsDen] at hb hd
   | _ :: _, _ :: _, [], hb, _ => by simp [BoundTo] at hb
+
+theorem dict_defined : ∀ (items : List (String × Nat)) {as : List (Arr Val)},
+    KidsDen g inp (items.map (·.2)) as →
+    (allSomeKV (items.map fun kv => (kv.1, den g inp kv.2))).isSome = true
+  | [], _, _ => by simp [allSomeKV]
+  | (k, c) :: r, a :: as, hd => by
+    have ih := dict_defined r hd.2
+    simp only [List.map_cons, hd.1, allSomeKV]
+    cases h : allSomeKV (r.map fun kv => (kv.1, den g inp kv.2)) with
+    | none => simp [h] at ih
+    | some x => simp
+  | _ :: _, [], hd => by simp [KidsDen] at hd
+
+theorem il_sound (hw : WFG g) (hc : CleanEnv env) (hrank : RankOK g inp) {i : Nat} {dt : DType}
+    {e : SExpr} {binds : List (String × Nat)} {lits : List ScalarInfo}
+    (hn : (g.get i).node = .indexLambda dt e binds lits)
+    {pre : Bool} {kids : List Nat} {mk : List String → PyExpr}
+    (hp : plan g i = .ok (.stmt pre kids mk)) (hs : suppNode g i = true)
+    {names : List String} {as : List (Arr Val)} (hb : BoundTo env names as)
+    (hd : KidsDen g inp kids as) :
+    pyEval env (mk names) = denV g inp i := by
+  rw [denV_arr (by rw [hn]; intro items h; cases h), den_step hw]
+  simp only [plan, hn] at hp
+  simp only [suppNode, hn, Bool.and_eq_true] at hs
+  simp only [denoteStep, hn]
+  cases hsh : staticShape (g.get i).shape with
+  | none => simp [hsh] at hp
+  | some shape =>
+    simp only [hsh] at hp hs ⊢
+    simp only [ilPlan] at hp
+    obtain ⟨bs, hbs, hp⟩ := Gen.bind_ok.1 hp
+    simp only [hbs] at hs ⊢
+    cases hr : Raise.raise e shape bs with
+    | none => simp [hr] at hp
+    | some h =>
+      simp only [hr] at hp hs ⊢
+      exact hlo_sound hc _ dt shape binds lits h hp hs.2 hrank hb hd
+
+/-- one emitted statement: its right-hand side, over the names of the children, evaluates to the
+    node's value -/
+theorem stmt_sound (hw : WFG g) (hc : CleanEnv env) (hrank : RankOK g inp) {i : Nat}
+    {pre : Bool} {kids : List Nat} {mk : List String → PyExpr}
+    (hp : plan g i = .ok (.stmt pre kids mk)) (hs : suppNode g i = true)
+    {names : List String} {as : List (Arr Val)} (hb : BoundTo env names as)
+    (hd : KidsDen g inp kids as) :
+    pyEval env (mk names) = denV g inp i := by
+  cases hn : (g.get i).node with
+  | indexLambda dt e binds lits => exact il_sound hw hc hrank hn hp hs hb hd
+  | placeholder name => simp [plan, hn] at hp
+  | dataWrapper name => simp [plan, hn] at hp
+  | sizeParam name => simp [plan, hn] at hp
+  | refused k => simp [plan, hn] at hp
+  | other k => simp [plan, hn] at hp
+  | alias c => simp [plan, hn] at hp
+  | index c ix => simp [suppNode, hn] at hs
+  | einsum d cs' => simp [suppNode, hn] at hs
+  | roll c shift axis =>
+    simp only [plan, hn, Gen.ok.injEq, Plan.stmt.injEq] at hp
+    obtain ⟨_, rfl, rfl⟩ := hp
+    simp only [suppNode, hn, Bool.and_eq_true, decide_eq_true_eq] at hs
+    obtain ⟨v, h1, h2⟩ := roll_sound hw inp hn hs.2 hc hb hd
+    rw [h1, h2]
+  | perm c p =>
+    simp only [plan, hn, Gen.ok.injEq, Plan.stmt.injEq] at hp
+    obtain ⟨_, rfl, rfl⟩ := hp
+    simp only [suppNode, hn, Bool.and_eq_true, beq_iff_eq] at hs
+    obtain ⟨v, h1, h2⟩ := perm_sound hw inp hn hc hb hd (fun a ha => (hrank c a ha).trans hs.2)
+    rw [h1, h2]
+  | reshape c order =>
+    simp only [plan, hn] at hp
+    cases hsh : staticShape (g.get i).shape with
+    | none => simp [hsh] at hp
+    | some shape =>
+      simp only [hsh, Gen.ok.injEq, Plan.stmt.injEq] at hp
+      obtain ⟨_, rfl, rfl⟩ := hp
+      simp only [suppNode, hn, Bool.and_eq_true] at hs
+      obtain ⟨v, h1, h2⟩ := reshape_sound hw inp hn hsh hs.2.1 hc hb hd
+      rw [h1, h2]
+  | stack cs' axis =>
+    simp only [plan, hn, Gen.ok.injEq, Plan.stmt.injEq] at hp
+    obtain ⟨_, rfl, rfl⟩ := hp
+    simp only [suppNode, hn, Bool.and_eq_true, decide_eq_true_eq] at hs
+    obtain ⟨v, h1, h2⟩ := stack_sound hw inp hn hs.2 hc hb hd
+    rw [h1, h2]
+  | concat cs' axis =>
+    simp only [plan, hn, Gen.ok.injEq, Plan.stmt.injEq] at hp
+    obtain ⟨_, rfl, rfl⟩ := hp
+    simp only [suppNode, hn, Bool.and_eq_true, decide_eq_true_eq] at hs
+    obtain ⟨v, h1, h2⟩ := concat_sound hw inp hn hs.2 hc hb hd
+    rw [h1, h2]
+  | dict items =>
+    simp only [plan, hn, Gen.ok.injEq, Plan.stmt.injEq] at hp
+    obtain ⟨_, rfl, rfl⟩ := hp
+    simp only [denV, hn, pyEval]
+    rw [dict_eval _ hb hd]
+
+/-- a statement of a node all of whose children have values has a value -/
+theorem stmt_defined (hdef : Defined g inp) {i : Nat} {pre : Bool} {kids : List Nat}
+    {mk : List String → PyExpr} (hp : plan g i = .ok (.stmt pre kids mk))
+    {as : List (Arr Val)} (hd : KidsDen g inp kids as) : (denV g inp i).isSome = true := by
+  cases hn : (g.get i).node with
+  | dict items =>
+    simp only [plan, hn, Gen.ok.injEq, Plan.stmt.injEq] at hp
+    obtain ⟨_, rfl, _⟩ := hp
+    simp only [denV, hn, Option.isSome_map]
+    exact dict_defined _ hd
+  | _ =>
+    rw [denV_arr (by rw [hn]; intro items h; cases h), Option.isSome_map]
+    exact hdef i (by simp [notDict, hn])
+
+/-- a node without a statement denotes what its child denotes -/
+theorem pass_sound (hw : WFG g) {i c : Nat} (hp : plan g i = .ok (.pass c))
+    (hs : suppNode g i = true) : denV g inp i = denV g inp c ∧ c ∈ kidsOf g i := by
+  cases hn : (g.get i).node with
+  | alias c' =>
+    simp only [plan, hn, Gen.ok.injEq, Plan.pass.injEq] at hp
+    subst hp
+    simp only [suppNode, hn, kidsOf, List.all_cons, List.all_nil, Bool.and_true, Bool.and_eq_true] at hs
+    refine ⟨?_, by simp [kidsOf, hn]⟩
+    rw [denV_arr (by rw [hn]; intro items h; cases h), den_step hw]
+    simp only [denoteStep, hn]
+    rw [denV_arr (by intro items h; simp [notDict, h] at hs)]
+  | index c' ix => simp [suppNode, hn] at hs
+  | indexLambda dt e binds lits =>
+    simp only [plan, hn] at hp
+    cases hsh : staticShape (g.get i).shape with
+    | none => simp [hsh] at hp
+    | some shape =>
+      simp only [hsh, ilPlan] at hp
+      obtain ⟨bs, _, hp⟩ := Gen.bind_ok.1 hp
+      cases hr : Raise.raise e shape bs with
+      | none => simp [hr] at hp
+      | some h =>
+        simp only [hr] at hp
+        obtain ⟨pre, kids, mk, hpl⟩ := hloPlan_stmt hp
+        cases hpl
+  | reshape c' o =>
+    simp only [plan, hn] at hp
+    cases hsh : staticShape (g.get i).shape <;> simp [hsh] at hp
+  | _ => simp [plan, hn] at hp
 
 end
 
